@@ -434,6 +434,7 @@ func (c *consumerGroup) handleError(err error, topic string, partition int32) {
 	default:
 	}
 
+	verifGate("cg.err.mid", topic, partition)
 	select {
 	case c.errors <- err:
 	default:
